@@ -171,4 +171,7 @@ HistLine == ToJson([kind |-> kind, prof |-> prof, t0 |-> f0.t,
                         resit |-> [i \in 1..Len(hist[k].res) |-> hist[k].res[i].it],
                         monit |-> [i \in 1..Len(hist[k].mon) |-> hist[k].mon[i].it]]]])
 ExportHist == ((Done \/ DoneL) /\ script = <<>> /\ GenFile # "") => CSVWrite("%1$s", <<HistLine>>, GenFile)
+(* only for deviations under which a run may never stop (ZeroTottimeIgnored: a stop time of 0 is dropped and nothing else
+   ends the run): explore the first iterations only *)
+DevBound == nit <= 8
 =============================================================================
